@@ -492,6 +492,12 @@ fn create_syntax_binding() -> Rc<LexicalScope<Transformer>> {
     BINDINGS.with(|bindings| bindings.clone())
 }
 
+/// A fresh syntax environment: a scope of its own on top of the bundled derived forms, so that
+/// define-syntax never writes into the table that all parsers of the thread share.
+pub fn new_syntax_environment() -> Rc<LexicalScope<Transformer>> {
+    Rc::new(LexicalScope::new_child(create_syntax_binding()))
+}
+
 impl<TokenIter: Iterator<Item = Result<Token>>> Parser<TokenIter> {
     fn from_lexer_primary_syntax(lexer: TokenIter) -> Parser<TokenIter> {
         Self {
@@ -506,7 +512,7 @@ impl<TokenIter: Iterator<Item = Result<Token>>> Parser<TokenIter> {
         Self {
             current: None,
             lexer: lexer.peekable(),
-            syntax_env: create_syntax_binding(),
+            syntax_env: new_syntax_environment(),
             location: None,
         }
     }
